@@ -313,9 +313,12 @@ func oracle(c Case) vkit.Outcome {
 		}
 		return out
 	}
-	for _, r := range resp.Results {
+	for i, r := range resp.Results {
 		if r.Timeout || (r.Probe != nil && r.Probe.Timeout) {
 			out.Inconclusive = "vm timeout"
+			if os.Getenv("C33_DEBUG") != "" {
+				fmt.Printf("VM-TIMEOUT variant %d\n%s\n", i, scripts[i])
+			}
 			return out
 		}
 	}
